@@ -58,19 +58,22 @@ fn filename(path: &Path) -> Result<&OsStr> {
 
 fn has_backup(file: &Path) -> Result<bool> {
     let fname = filename(file)?;
-    let exists = ls_file_dir(file)?
-        .any(|der| if let Ok(de) = der {
-            is_num_backup(fname, &de.path()).is_some()
-        } else {
-            false
-        });
+    // A failed directory listing must not read as "no backups".
+    let entries = ls_file_dir(file)?
+        .collect::<std::io::Result<Vec<_>>>()?;
+    let exists = entries.iter()
+        .any(|de| is_num_backup(fname, &de.path()).is_some());
     Ok(exists)
 }
 
 fn next_backup_num(file: &Path) -> Result<u64> {
     let fname = filename(file)?;
-    let current = ls_file_dir(file)?
-        .filter_map(|der| is_num_backup(fname, &der.ok()?.path()))
+    // A failed directory listing must not read as "no backups":
+    // the next number would replace an existing backup.
+    let entries = ls_file_dir(file)?
+        .collect::<std::io::Result<Vec<_>>>()?;
+    let current = entries.iter()
+        .filter_map(|de| is_num_backup(fname, &de.path()))
         .max()
         .unwrap_or(0);
     Ok(current + 1)
